@@ -23,6 +23,24 @@ def ev_call(ex, st, e, cx, k):
         r = spec_call(ex, st, e, cx, k)
         if r is not NotImplemented:
             return r
+    if isinstance(f, ast.Attribute) and f.attr in ('write', 'getvalue') and isinstance(f.value, ast.Name) \
+            and f.value.id in st.vars and st.vars[f.value.id].ty == T.SIO and not cx.spec:
+        if f.attr == 'write' and len(e.args) == 1:
+            from .methods import sio_write
+            return sio_write(ex, st, st.vars[f.value.id], e, cx, k)
+        if f.attr == 'getvalue':
+            # the text is a function of the tokens (and of presentation details the contracts do not speak about)
+            return k(st, ex.fresh(STR, 'text'))
+    if isinstance(f, ast.Attribute) and f.attr in ('puts', 'write_hex_file', 'dump') and not cx.spec:
+        # methods of an intelhex.IntelHex object (external library), modelled like a StringIO: a list of tokens
+        def fih(st, obj):
+            if obj.ty != T.SIO:
+                raise VCError(f'{ast.unparse(e)}: receiver is not a token list')
+            if f.attr != 'puts':
+                return k(st, NONE_SV)             # rendering of the stored bytes: trusted to the library
+            from .methods import sio_puts
+            return sio_puts(ex, st, obj, e, cx, k)
+        return ex.ev(st, f.value, cx, fih)
     if isinstance(f, ast.Name) and f.id == 'cls' and cx.fi is not None and cx.fi.kind == 'classmethod' and cx.cls is not None \
             and not cx.spec:
         # cls(...) in a classmethod constructs the defining class (no subclass calls these factories with another cls)
@@ -359,6 +377,12 @@ def spec_call(ex, st, e, cx, k):
         a, i, v = [ex.pure(st, x, cx) for x in e.args]
         iz = i.z if T.is_reflike(i.ty) else ex.coerce(i, INT).z
         return k(st, SV(a.ty, z3.Store(a.z, iz, ex.coerce(v, a.ty.args[0]).z)))
+    if nm == 'all_bytes':
+        a_, lo_, hi_ = [ex.pure(st, x, cx) for x in e.args]
+        return k(st, SV(BOOL, ex.bi.all_bytes(a_.z, ex.coerce(lo_, INT).z, ex.coerce(hi_, INT).z)))
+    if nm == 'no_bytes':
+        # the empty address-to-byte map: -1 (no byte) everywhere
+        return k(st, SV(T.Ty('arr', INT), z3.K(z3.IntSort(), z3.IntVal(-1))))
     if nm == 'seq_empty':
         ty = ex.tenv.parse(e.args[0].value)
         return k(st, SV(T.seq(ty), z3.Empty(z3.SeqSort(T.sort_of(ty)))))
